@@ -58,7 +58,7 @@ impl Value {
             C(List(_, _)) => "List",
             C(Tuple(_, _)) => "Tuple",
             F(_) => "Func",
-            M(_) => "Func",
+            M(_) => "Module",
             T(_) => "Expression",
             S(_) => "Symbol",
             K(_) => "Constraint",
